@@ -186,6 +186,9 @@ def show(g):
 
 
 def replay(case):
+    if case.get("kind") == "column_block":
+        d = column_block_case(case["rows"], case["W"], case["r0"], case["c"], case["block_runs"])
+        return d == "", d
     d = apply_history(case["H"], case["W"], [tuple(h) for h in case["hist"]], case.get("ctor"))
     return d == "", d
 
@@ -324,6 +327,50 @@ def bounded(check, tier, seed):
     s.done()
 
 
+def column_block_case(rows, W, r0, c, block_runs):
+    """a[r0:r0+n, c] = <a FmtStr of n characters>: the block of a one-column region may be a FmtStr itself (one row per character, the
+    formatted counterpart of a[0:3, 1] = 'abc').  -> '' or description"""
+    from curtsies.formatstringarray import fsarray
+    a = fsarray(list(rows), W)
+    before = grid(a)
+    block = FmtStr(*[Chunk(t, dict(at)) for t, at in block_runs])
+    bc = cells(block)
+    n = len(bc)
+    try:
+        a[r0:r0 + n, c] = block
+    except Exception as e:      # noqa: BLE001
+        after = grid(a)
+        if after[:len(before)] != before or any(r != [BL] * W for r in after[len(before):]):
+            return f"{type(e).__name__} raised but cells changed: {show(before)} -> {show(after)}"
+        return f"raised {type(e).__name__}: {e} for a block with exactly one character per row of the region"
+    after = grid(a)
+    want = [list(r) for r in before] + [[BL] * W for _ in range(max(0, r0 + n - len(before)))]
+    for i in range(n):
+        want[r0 + i][c] = bc[i]
+    if after != want:
+        return f"a[{r0}:{r0 + n}, {c}] = {block!r} on {show(before)}: cells are {show(after)}, expected {show(want)}"
+    return ""
+
+
+def column_blocks(check, tier):
+    s = Suite(check, "C04.column_blocks", "a[r0:r0+n, c] = <FmtStr of n characters> (one row per character; two runs; narrow, combining, double-width "
+              "characters) on 4 arrays x every r0 in 0..H x every column: the column shows the characters with their formatting, every other "
+              "cell is as it was, the array grows as needed", bound="arrays 4x3, blocks <= 3 characters")
+    arrays = [(["abc", "de", "", "f"], 3), (["abc", "abc", "abc", "abc"], 3), ([], 2), (["a"], 3)]
+    blocks = [[["a", {"fg": 31}], ["b", {"bold": True}]], [["x", {"fg": 31}], ["e\u0301", {"bold": True}]], [["\u0301", {}], ["a", {"bg": 44}]],
+              [["q", {"fg": 32}]], [["xyz", {"underline": True}]], [["a\u200d", {"fg": 35}], ["b", {}]]]
+    for rows, W in arrays:
+        for r0 in range(0, len(rows) + 2):
+            for c in range(0, W):
+                for br in blocks:
+                    case = dict(rows=rows, W=W, r0=r0, c=c, block_runs=br)
+                    s.case((tuple(rows), W, r0, c, repr(br)), sample=case)
+                    d = column_block_case(**case)
+                    if d:
+                        s.fail("C04.column_block", case, d, replay={"kind": "suite", "module": "props.C04", "case": dict(case, kind="column_block")})
+    s.done()
+
+
 def contract_probe(n=2500):
     """concrete assignment histories for the deductive contracts of FSArray (heap objects: no model to replay); the listed known
     finding (over-long row spilling into the blank tail) is not a witness for another obligation and is skipped"""
@@ -353,3 +400,4 @@ def run(check, tier, seed):
         # per-obligation budget of this contract is sized so that the verdict does not flip when all cores are busy)
         verify(c, tier, check, budget=90 if tier == "quick" else 240)
     bounded(check, tier, seed)
+    column_blocks(check, tier)
